@@ -189,6 +189,89 @@ def s18_grid(ctx):
     return res
 
 
+def lattice_map(rng):
+    """disjoint polylines on the INTEGER lattice, one per horizontal band (so the map is trivially valid: no contacts at all). With a cell width of 2 the
+    sample circles (radius 3, centres on the lattice) have their easternmost vertex exactly on a lattice point, so trace vertices regularly sit exactly on a
+    circle. The middle band holds a PLANTED trace that touches the easternmost vertex of one sample circle from outside in an isolated point and then runs
+    through the same circle (its clip is a line plus a point)."""
+    traces = []
+    for y0 in (0, 12) if rng.random() < 0.7 else (0, 12, 17):
+        k = rng.randint(2, 5)
+        xs = sorted(rng.sample(range(0, 15), k))
+        if rng.random() < 0.5:
+            xs = xs[::-1]
+        traces.append([(float(x), float(y0 + rng.randint(0, 3))) for x in xs])
+    x_min = min(p[0] for l in traces for p in l)
+    x_max = max(p[0] for l in traces for p in l)
+    y_max = max(p[1] for l in traces for p in l)
+    # touch vertex (X, Y) = centre + (3, 0) of a cell: X - x_min - 4 and y_max - Y - 1 are even multiples of the cell width 2 / its half
+    cands = [(X, Y) for X in range(int(x_min) + 4, int(x_max) - 1) for Y in (7, 8) if (X - int(x_min)) % 2 == 0 and (int(y_max) - Y) % 2 == 1]
+    if cands:
+        X, Y = rng.choice(cands)
+        planted = [(X + 2.0, Y + 2.0), (float(X), float(Y)), (X + 2.0, Y - 2.0), (X - 4.0, Y - 2.0)]
+        if rng.random() < 0.5:
+            planted = planted[::-1]
+        traces.insert(rng.randint(0, len(traces)), planted)
+    return traces
+
+
+def check_touch_map(ctx, traces, w, res, stream):
+    import geopandas as gpd
+    import joblib
+    from shapely.geometry import LineString, Point, box
+
+    from fractopo import Network
+
+    case = {"stream": stream, "traces": traces, "width": w}
+    try:
+        net = Network(trace_gdf=gpd.GeoDataFrame(geometry=[LineString(l) for l in traces]), area_gdf=gpd.GeoDataFrame(geometry=[box(-8.0, -8.0, 24.0, 28.0)]),
+                      name="touch", determine_branches_nodes=True, snap_threshold=0.01, truncate_traces=True, circular_target_area=False)
+        with joblib.parallel_config(backend="threading"):
+            g = net.contour_grid(cell_width=w)
+    except Exception as e:
+        res.disagreements.append(Disagreement(stream, case, "table", f"{type(e).__name__}: {str(e)[:200]}", True, "contour_grid raised"))
+        return
+    own = [[tuple(c[:2]) for c in gm.coords] for gm in net.trace_gdf.geometry.values]
+    circles, reqs = [], []
+    for cell in g.geometry.values:
+        cen = cell.centroid
+        circle = Point(cen.x, cen.y).buffer(math.sqrt(cell.area) * 1.5)
+        circles.append(circle)
+        reqs.append(f"clip areas={area_rows([circle])} traces={lines(own)}")
+    resps = ctx.driver.parallel(reqs)
+    touched = 0
+    for i, (circle, rc) in enumerate(zip(circles, resps)):
+        r = parse_resp(rc)
+        pcs = [parse_lines(x) for x in r["pieces"].split("#")]
+        touch = any(x == "1" for x in r.get("touch", "").split(",")) if r.get("touch") else False
+        touched += int(touch)
+        total = sum(math.hypot(float(b[0] - a[0]), float(b[1] - a[1])) for ps in pcs for pc in ps for a, b in zip(pc[:-1], pc[1:]))
+        p21 = total / circle.area
+        got = float(g["Fracture Intensity P21"].values[i])
+        if abs(got - p21) > 1e-7 * max(1.0, p21):
+            res.disagreements.append(Disagreement(stream, dict(case, cell=i, centre=[circle.centroid.x, circle.centroid.y], touch=touch), p21, got, True,
+                                                  f"cell {i}: P21 {got!r}, recomputed from the traces clipped exactly to its sample circle: {p21!r}"))
+            return
+    res.distribution["cells"] = res.distribution.get("cells", 0) + len(circles)
+    res.distribution["cells_with_a_trace_touching_the_circle_in_a_point"] = res.distribution.get("cells_with_a_trace_touching_the_circle_in_a_point", 0) + touched
+    if touched:
+        res.nontrivial += 1
+
+
+def s18_touch(ctx):
+    import_fractopo()
+    res = StreamResult("S18-touch", rule="integer-lattice maps of 2..4 disjoint polylines, one of them planted to touch the easternmost vertex of a sample circle in a point and run through the circle, x cell width 2 (sample circles of radius 3 centred on lattice points: trace vertices sit exactly on "
+                       "circle vertices) and width 2.5: EVERY cell's P21 vs the exact clip (Lean) of the network's traces to that cell's sample circle; non-trivial = "
+                       "map in which some trace touches some sample circle in an isolated point and also runs through it")
+    rng = rng_for(ctx.seed, "S18t")
+    for _ in range(budget(ctx.tier, 10, 150)):
+        traces = lattice_map(rng)
+        res.evaluations += 1
+        check_touch_map(ctx, traces, 2.0 if rng.random() < 0.8 else 2.5, res, "S18-touch")
+    res.samples = [{"maps": res.evaluations}]
+    return res
+
+
 def s18_generated(ctx):
     """translator validation: the REGENERATED loops of create_grid (compiled into gen_c18) vs the real function on exactly representable inputs"""
     import_fractopo()
@@ -229,7 +312,7 @@ def s18_generated(ctx):
     return res
 
 
-STREAMS = [s18_grid, s18_generated]
+STREAMS = [s18_grid, s18_touch, s18_generated]
 
 
 def replay(ctx, stream, case):
@@ -237,6 +320,10 @@ def replay(ctx, stream, case):
     if stream == "S18-generated":
         r = s18_generated(ctx)
         return r.disagreements[0] if r.disagreements else None
+    if stream == "S18-touch":
+        res = StreamResult("replay")
+        check_touch_map(ctx, [[tuple(p) for p in l] for l in case["traces"]], case["width"], res, stream)
+        return res.disagreements[0] if res.disagreements else None
     from shapely.geometry import Polygon
 
     from harness.mapgen import Arrangement, arr_request
